@@ -231,6 +231,10 @@ class Gen(object):
         r = self.rng
         v = Fraction(v)
         num, exp = V.frac_to_pair(v)
+        if r.random() < 0.06:
+            dt = self.exotic_dtype([v])
+            if dt is not None:
+                return ['n', dt, num, exp]
         if v.denominator == 1:
             k = r.random()
             n = int(v)
@@ -257,6 +261,26 @@ class Gen(object):
             return ['s', num, exp]
         return ['f', num, exp]
 
+    def exotic_dtype(self, vals):
+        """A less common NumPy type that holds every one of `vals` exactly (narrow and unsigned
+        integers, half and extended precision floats), or None."""
+        r = self.rng
+        vals = [Fraction(v) for v in vals]
+        if all(v.denominator == 1 for v in vals):
+            lo, hi = min(vals), max(vals)
+            c = [dt for dt in ('int8', 'int16', 'int32', 'uint8', 'uint16', 'uint32', 'uint64')
+                 if np.iinfo(dt).min <= lo and hi <= np.iinfo(dt).max]
+        else:
+            c = []
+        try:
+            if all(V.float_ok(v) and Fraction(float(np.float16(float(v)))) == v for v in vals):
+                c.append('float16')
+        except (OverflowError, ValueError):
+            pass
+        if all(V.float_ok(v) for v in vals):
+            c.append('longdouble')
+        return r.choice(c) if c else None
+
     def shape(self):
         r = self.rng
         return r.choice([(2,), (3,), (4,), (2, 2), (2, 3), (3, 2), (3, 3), (1, 3), (1,)])
@@ -282,6 +306,10 @@ class Gen(object):
                 dt = 'float32'
             else:
                 dt = 'float64'
+            if r.random() < 0.1:
+                xdt = self.exotic_dtype(vals)
+                if xdt is not None:
+                    return ['a', xdt, list(shape), pairs]
             if r.random() < 0.06 and all(V.float_ok(v) and abs(v) < (1 << 62) for v in vals):
                 # an array of Python numbers (dtype=object): ints and floats side by side
                 return ['a', 'object', list(shape), pairs]
